@@ -113,16 +113,28 @@ theorem regNode_frame (c : Cat) (v : Nat) (skip : Bool) :
   · exact ⟨rfl, rfl⟩
   · split <;> exact ⟨rfl, rfl⟩
 
+/-- a node write either stores the new value or keeps the stored one -/
+theorem nodeWrite_cases (old : Option Nat) (v : Nat) :
+    nodeWrite old v = some v ∨ (nodeWrite old v = old ∧ old ≠ none) := by
+  unfold nodeWrite
+  cases old with
+  | none => exact Or.inl rfl
+  | some w => simp only; split <;> simp
+
+theorem nodeWrite_same (v : Nat) : nodeWrite (some v) v = some v := by simp [nodeWrite]
+
 theorem regNode_node (c : Cat) (v : Nat) (skip : Bool) :
-    (c.regNode v skip).node = some v ∨ ((c.regNode v skip).node = c.node ∧ c.node ≠ none ∧ skip = true) := by
+    (c.regNode v skip).node = some v ∨ ((c.regNode v skip).node = c.node ∧ c.node ≠ none) := by
   unfold Cat.regNode; split
   · exact Or.inl rfl
   · rename_i x hx; split
     · right; simp_all
-    · exact Or.inl rfl
+    · simp only; exact nodeWrite_cases c.node v
 
 theorem regNode_of_some (c : Cat) (v : Nat) (skip : Bool) (h : c.node = some v) : (c.regNode v skip).node = some v := by
-  unfold Cat.regNode; rw [h]; simp only; split <;> simp_all
+  unfold Cat.regNode; rw [h]; simp only; split
+  · exact h
+  · exact nodeWrite_same v
 
 theorem deregSvc_svcs (c : Cat) (id i : Id) :
     (c.deregSvc id).svcs.get? i = if id = i then none else c.svcs.get? i := by
